@@ -49,4 +49,15 @@ theorem cast_down_is_spec (p : Nat) (hp : p = 4 ∨ p = 8) (a j : CoreTy) (hle :
     simp only [castSem, CoreTy.erase, ptrFT, FT.width, CVal.mk.injEq, true_and] at hb ⊢ <;>
     (try (first | rfl | omega | (simp at hb ⊢; omega) | (simp at hb ⊢)))
 
+/-- every cast the table chooses is well-typed on an operand of the source core type (both widths) -/
+theorem cast_typed (p : Nat) (hp : p = 4 ∨ p = 8) (a b : CoreTy) (c : Bitcast) (h : cast a b = some c)
+    (x : CVal) (hty : x.ty = a.erase p) : castTyped p c x = some (castSem p c x) := by
+  obtain ⟨ty, bits⟩ := x
+  simp only at hty
+  subst hty
+  rcases hp with rfl | rfl <;> cases a <;> cases b <;>
+    simp only [cast, Option.some.injEq, reduceCtorEq] at h <;>
+    (try subst h) <;>
+    simp [castTyped, castSrc, castSem, CoreTy.erase, ptrFT]
+
 end Witverif.Abi
